@@ -188,6 +188,36 @@ Theorem C05_hls_idle_time_bounded : forall ops sp j,
 Proof. exact age_bound. Qed.
 Print Assumptions C05_hls_idle_time_bounded.
 
+(* The registry's own pending tasks.  Regist posts a retire task when it replaces a stream that has
+   consumers; [st_retire] says which stream a task is bound to; [GFire] = the scheduler runs every
+   pending task once (period [retire_period] = 5 ticks).  Its effect on every stream is [fired]: *)
+Theorem C05_fire_effect : forall sp j, sp_get (fst (sstep sp GFire)) j = fired (sp_get sp j).
+Proof. exact fire_effect. Qed.
+Print Assumptions C05_fire_effect.
+
+(* a fired task closes only the stream it was created for — the replaced one — and only when that
+   stream is unused; registering a stream never puts that stream itself under a task: the live
+   successor is never closed by its predecessor's task *)
+Theorem C05_retire_task_targets_old_stream : forall ops j,
+  let sp := sexec sinit ops in
+  let sp' := fst (sstep sp GFire) in
+  (st_retire (sp_get sp j) = false -> sp_get sp' j = sp_get sp j) /\
+  (st_live (sp_get sp j) = true -> st_live (sp_get sp' j) = false ->
+     st_retire (sp_get sp j) = true /\ st_rtp (sp_get sp j) = 0 /\ st_flv (sp_get sp j) = 0 /\
+     (st_hls (sp_get sp j) = false \/ retire_period <= st_hls_idle (sp_get sp j))) /\
+  (forall i, st_retire (sp_get (fst (sstep sp (GRegist i))) i) = st_retire (sp_get sp i)).
+Proof. exact retire_task_targets_old_stream. Qed.
+Print Assumptions C05_retire_task_targets_old_stream.
+
+(* and the retired stream IS closed by its task once its consumers have left *)
+Theorem C05_retired_stream_eventually_closed : forall sp j,
+  st_retire (sp_get sp j) = true ->
+  st_rtp (sp_get sp j) = 0 -> st_flv (sp_get sp j) = 0 ->
+  (st_hls (sp_get sp j) = false \/ retire_period <= st_hls_idle (sp_get sp j)) ->
+  st_live (sp_get (fst (sstep sp GFire)) j) = false.
+Proof. exact retired_stream_eventually_closed. Qed.
+Print Assumptions C05_retired_stream_eventually_closed.
+
 (* 3d. the reported stream count is the number of keys that resolve to a live stream, the consumer
    count the sum of those streams' consumers, the listing the sorted resolving keys *)
 Theorem C05_count_matches_live_set : forall ops,
@@ -299,6 +329,14 @@ Example C05_spelling_nonvacuous :
   srun sinit example_spelled_1 = [RUnit; RUnit; RUnit; RUnit; RGet (Some 1%nat); RCount 1 0] /\
   srun sinit example_spelled_2 = [RUnit; RUnit; RUnit; RUnit; RGet (Some 1%nat); RCount 1 0].
 Proof. exact example_spelled_ok. Qed.
+
+Example C05_retire_nonvacuous :
+  hist_wf sinit example_retire = true /\
+  snd (grun rfixed rinit example_retire) = srun sinit example_retire /\
+  srun sinit example_retire =
+    [ RUnit; RUnit; RUnit; RUnit; RUnit; RUnit; RGet (Some 1%nat); RUnit; RUnit; RGet (Some 1%nat); RCount 1 0 ] /\
+  end_vec (sp_streams (sexec sinit example_retire)) = [(false, 1, 1); (true, 0, 0)].
+Proof. exact example_retire_ok. Qed.
 
 Example C05_hls_nonvacuous :
   hist_wf sinit example_hls = true /\
